@@ -36,7 +36,7 @@ KindL == {Blk(kd, al, h, 1, bu, 1, a, 1, 0, b, t1, 400) : kd \in FCR, al \in {FA
 \* (no two different temperature pairs have the same block average: the copied candidate is decided by a float comparison)
 CylS  == {Blk(kd, FALSE, h, 1, bu, 1, a, 1, 1, 2, t1, 300) : kd \in FR, h \in {1, 3}, bu \in {2}, a \in {0, 2}, t1 \in {400, 700}}
 CylM  == {Blk(kd, FALSE, h, 1, a + 1, 1, a, 1, 1, 2, t1, t2) : kd \in FR, h \in {1, 3}, a \in {0, 1, 2}, t1 \in {400, 700}, t2 \in {300, 520}}
-CylL  == {Blk(kd, FALSE, h, 1, bu, hm, a, 1, b, 2, t1, t2) : kd \in FR, h \in {1, 2, 3}, bu \in {0, 4}, hm \in {1, 2}, a \in {0, 1, 2}, b \in {0, 2}, t1 \in {400, 700}, t2 \in {300, 520}}
+CylL  == {Blk(kd, FALSE, h, 1, a + 1, 1, a, 1, 1, 2, t1, t2) : kd \in FR, h \in {1, 2, 3}, a \in {0, 1, 2}, t1 \in {400, 700}, t2 \in {300, 520}}
 CylTri == {Blk(kd, FALSE, h, 1, a, 1, a, 1, 1, 2, 400 + 100 * a, 300) : kd \in FR, h \in {1, 3}, a \in {0, 2}}
 \* blocks that carry a lumped-fission-product collection (what depletion models put on fuel blocks)
 LfpS  == {[Blk("fuel", FALSE, h, 1, bu, 1, 1, 1, 1, 1, 600, 400) EXCEPT !.lfp = l] : h \in {1, 2}, bu \in {0, 3}, l \in BOOLEAN}
